@@ -107,6 +107,7 @@ Inductive out :=
 | OFatal (d : Z)              (* ssl->err := d: fatal alert d written, SSL_FLAGS_ERROR set *)
 | OFail                       (* the handler rejected the body: fatal alert (description chosen by the handler), SSL_FLAGS_ERROR set *)
 | OAccept (respond : bool)    (* message consumed; a flight is written or not *)
+| OWarn (d : Z)               (* refused with a WARNING alert, session unchanged (no_renegotiation: writeAlert forces the level) *)
 | OIgnore                     (* record consumed, nothing happens *)
 | ORefuse.                    (* session already dead: entry guard of matrixSslDecode *)
 
@@ -230,14 +231,15 @@ End Tls13.
 (* ================================================================== TLS <= 1.2 *)
 
 Inductive gres :=
-| GRej (d : Z)        (* refused before anything is hashed: state unchanged, alert d *)
+| GRej (d : Z)        (* refused before anything is hashed: state unchanged, fatal alert d *)
+| GNoReneg            (* renegotiation request on a completed session: no_renegotiation warning, nothing changes *)
 | GIgn                (* HelloRequest while a ClientHello of ours is outstanding: dropped *)
 | GPass (s : hst).    (* hsStateDetermined; [hs s] names the handler that runs *)
 
 (* parseSSLHandshake up to hsStateDetermined.  Rehandshakes are compiled out. *)
 Definition gate12 (s : hst) (t : Z) : gres :=
   if (if server s then eqb t CH && eqb (hs s) DONE else eqb t HREQ && eqb (hs s) DONE)
-  then GRej c_SSL_ALERT_NO_RENEGOTIATION
+  then GNoReneg
   else if negb (eqb t (hs s)) && negb (eqb t CH && eqb (hs s) DONE && server s)      (* server only: fix C06-1 *)
   then
     if eqb t CREQ && eqb (hs s) SHD && negb (cauth s) then GPass (set_hs (set_cauth s true) CREQ)   (* once: fix C06-6 *)
@@ -310,6 +312,7 @@ Definition handler12 (s : hst) (m : hmsg) : hst * out :=
 Definition step12 (s : hst) (m : hmsg) : hst * out :=
   match gate12 s (m_typ m) with
   | GRej d => fatal s d
+  | GNoReneg => (s, OWarn c_SSL_ALERT_NO_RENEGOTIATION)
   | GIgn => (s, OIgnore)
   | GPass s1 =>
       (* snapshot for Finished BEFORE the message is hashed; then sslUpdateHSHash; then the handler *)
